@@ -59,8 +59,8 @@ def check_text(text, ap, model, rng, tags):
     r = model.call([60, dcfg, icfg, tk[1]]) if tk is not None else None
     if dcfg:
         cl.add("dcache")
-    if r is not None and text.splitlines() and all(__import__("lex_corr").in_domain(l) for l in text.splitlines()):
-        r93 = model.call([93, dcfg, icfg, text_lines(text)])
+    if r is not None:
+        r93 = model.call([94, dcfg, icfg, [ord(c) for c in text]])        # the WHOLE text: the model splits the lines itself
         if r93 != r:
             k = next((j for j in range(min(len(r), len(r93))) if r[j] != r93[j]), None)
             out["corr"].append(("disagreement", f"the model's lexer+assembler on the TEXT differs from the model's assembler on the real tokenizer's tokens (component {k})"))
@@ -196,9 +196,9 @@ class RvLex(Slice):
             elif r[0] != a:
                 findings.append(("disagreement", f"line {l!r}: real tokenizer says {['blank', 'syntax error', 'accepted'][a]}, model lexer {['blank', 'syntax error', 'accepted'][r[0]]}"))
         text = "\n".join(lines)
-        if text.splitlines() == lines:
+        if True:
             sim, err = RA.impl_load(text)
-            r = model.call([93, [], [], text_lines(text)])
+            r = model.call([94, [], [], [ord(c) for c in text]])
             merr = r[0][0] if r[0] else None
             if (err is None) != (merr is None) or (err is not None and err[:2] != merr[:2] and not (err[0] in (9, 10, 11) and merr[0] in (9, 10, 11))):
                 findings.append(("disagreement", f"load_program on the text: impl {err}, model lexer+assembler {merr}"))
